@@ -17,10 +17,15 @@ type rawPeer struct {
 	eof     bool
 	stop    bool
 	onFrame func(f Frame)
+	// pauseAfter >= 0: once that many bytes have been read the peer stops reading (a stalled
+	// node: the real side's writes fill the socket buffer and block) until it is closed
+	pauseAfter int64
+	nread      int64
+	paused     bool
 }
 
 func newRawPeer(c *Conn) *rawPeer {
-	r := &rawPeer{c: c}
+	r := &rawPeer{c: c, pauseAfter: -1}
 	go r.readLoop()
 	return r
 }
@@ -28,6 +33,13 @@ func newRawPeer(c *Conn) *rawPeer {
 func (r *rawPeer) readLoop() {
 	hdr := make([]byte, 8)
 	for {
+		for r.pauseAfter >= 0 && r.nread >= r.pauseAfter && !r.stop && !r.c.closed {
+			if !r.paused {
+				r.paused = true
+				rt.Fault("F9.peer-stops-reading")
+			}
+			sleep(time.Second)
+		}
 		if err := readFull(r.c, hdr); err != nil {
 			r.readErr = err
 			r.eof = true
@@ -41,6 +53,7 @@ func (r *rawPeer) readLoop() {
 			r.eof = true
 			return
 		}
+		r.nread += int64(8 + ln)
 		f := Frame{Proto: id & 0x7fff, Response: id&0x8000 != 0, Payload: payload}
 		r.Frames = append(r.Frames, f)
 		if r.onFrame != nil {
